@@ -367,12 +367,12 @@ def shrink_schedule(case):
                 yield c
 
 
-TIERS = {"quick": {"runs": 240, "wall_cap": 480, "opts": {"gen": {"nvariants": 3}}},
+TIERS = {"quick": {"runs": 340, "wall_cap": 480, "opts": {"gen": {"nvariants": 2}}},
          "thorough": {"runs": 8000, "wall_cap": 3300,
                       "opts": {"gen": {"nvariants": 5, "hashseeds": HASHSEEDS_THOROUGH}}}}
 RULE = ("one run = one generated multi-directory world (2..5 platforms, engineered byte-identical copies forming duplicate "
         "classes, unused files, nested directories) executed under a baseline schedule (hash seed 0, entries enumerated by "
-        "name, tables as written) and 3 (quick) / 5 (thorough) variant schedules, each = (interpreter hash seed, directory "
+        "name, tables as written) and 2 (quick) / 5 (thorough) variant schedules, each = (interpreter hash seed, directory "
         "enumeration order by keyed permutation or native order after permuted file creation, [platform.*] table "
         "permutation); every schedule runs codebasin (summary, duplicates, clustering in 1/3 of runs), cbi-tree with and "
         "without --prune, cbi-cov compute, and the in-process API; ~4% of runs also go through the real python -m codebasin; "
